@@ -756,9 +756,11 @@ def who_may_write(ctx, prog, rule, field, adt, allowed_fns):
                                 # writing a sub-field of the field
                                 pass
                             n += 1
-                            fnname = b.path
-                            if not any(re.search(a, fnname) for a in allowed_fns):
-                                bad.append("%s (%s) at %s:%s" % (fnname, how, b.file, s.get("line")))
+                            # a closure belongs to its function, a non-public helper split off by a refactoring to its callers
+                            from ..absint import owning_functions
+                            for fnname in sorted(owning_functions(prog, b)):
+                                if not any(re.search(a, fnname) for a in allowed_fns):
+                                    bad.append("%s (%s) at %s:%s" % (fnname if fnname == b.path else "%s via %s" % (fnname, b.path), how, b.file, s.get("line")))
     return n, bad
 
 
